@@ -13,6 +13,7 @@ spec/Rand.tla + MC_Rand.tla + Trace_Rand.tla.
 from __future__ import annotations
 
 import json
+import string
 import math
 import random
 import warnings
@@ -300,6 +301,22 @@ def run(chk):
                 dg, shp = shape(sc.requests, len(chars), len(s))
                 ev("str", f"genword/{charset}", L=len(chars), n=len(s), abc=[ord(c) for c in chars], digits=dg, out=[ord(c) for c in s], requests=shp)
             ev("minlen", f"genword/{charset}", L=len(chars), n=len(s), entropy=entropy)
+    # lengths for a requested entropy where the exact quotient entropy / log2(L) lies just above or just below a whole number
+    # (any rounding of the quotient before taking the ceiling, and any float error, shows exactly there), plus random pairs
+    risky = []
+    for L in range(2, 95):
+        if L & (L - 1) == 0:
+            continue
+        per = math.log2(L)
+        near = sorted(range(1, 257), key=lambda e: min((e / per) % 1, 1 - (e / per) % 1))
+        risky += [(L, e) for e in near[:3]] + [(L, rnd.randrange(1, 257))]
+    if quick:
+        risky = rnd.sample(risky, 140)
+    for L, entropy in risky:
+        cs = "".join(chr(33 + i) for i in range(L))
+        with Script(lambda k, b: 0):
+            w = pwd.genword(entropy=entropy, chars=cs)
+        ev("minlen", f"genword/chars{L}", L=L, n=len(w), entropy=entropy)
     for wordset in ("eff_long", "eff_short", "bip39"):
         words = pwd.default_wordsets[wordset]
         for entropy in (28, 48, 56):
@@ -313,19 +330,37 @@ def run(chk):
             if got != want or any(q[0] != "choice" or q[1] != len(words) for q in sc.requests):
                 chk.violation(f"genphrase:{wordset}", "genphrase does not draw one uniform word per position", {"got": got, "want": want})
             ev("minlen", f"genphrase/{wordset}", L=len(words) if len(words) < 32768 else 32767, n=len(got), entropy=entropy) if len(words) < 32768 else None
-    # libpass salts: one secrets.choice per character
+    # libpass salts: one uniform draw from the whole alphabet per character - through whichever entry point of the operating
+    # system's generator the code uses (secrets.choice / randbelow, SystemRandom.choice / randrange / choices all end in
+    # SystemRandom._randbelow(n) or SystemRandom.random())
+    import random as _random
     import libpass._salt as ls
     picks = []
-    orig = ls.secrets.choice
+    o_below, o_float = _random.SystemRandom._randbelow, _random.SystemRandom.random
+
+    def s_below(self, n):
+        picks.append(("below", n, (7 * (len(picks) + 1)) % n))
+        return picks[-1][2]
+
+    def s_float(self):
+        k = (7 * (len(picks) + 1)) % 62
+        picks.append(("float", 62, k))
+        return (k + 0.5) / 62
     try:
-        ls.secrets.choice = lambda seq: (picks.append(len(seq)) or seq[(7 * len(picks)) % len(seq)])
+        _random.SystemRandom._randbelow, _random.SystemRandom.random = s_below, s_float
         s = ls.generate_salt(12)
+        n1 = len(picks)
         s2 = ls.generate_salt_by_entropy(128)
+    except Exception as ex:
+        s, s2, n1 = f"{type(ex).__name__}: {ex}", "", 0
     finally:
-        ls.secrets.choice = orig
+        _random.SystemRandom._randbelow, _random.SystemRandom.random = o_below, o_float
     chk.evaluations += 2
-    if len(s) != 12 or picks[:12] != [62] * 12 or len(s2) * math.log2(62) < 128 or (len(s2) - 1) * math.log2(62) >= 128:
-        chk.violation("libpass:generate_salt", "libpass salt generator does not draw one uniform symbol per position / wrong length", {"s": s, "s2": s2})
+    abc62 = string.ascii_letters + string.digits
+    if len(s) != 12 or n1 != 12 or any(p[1] != 62 for p in picks) or s != "".join(abc62[p[2]] for p in picks[:12]) \
+            or len(s2) * math.log2(62) < 128 or (len(s2) - 1) * math.log2(62) >= 128:
+        chk.violation("libpass:generate_salt", "libpass salt generator does not draw one uniform symbol of the 62-symbol alphabet per position / wrong length",
+                      {"s": s, "s2": s2, "requests": [list(p) for p in picks[:14]]})
     ev("minlen", "libpass.generate_salt_by_entropy", L=62, n=len(s2), entropy=128)
     # libpass sha-crypt hashers: 16 salt symbols, each one uniform pick from the format's 64-symbol alphabet
     try:
@@ -336,22 +371,29 @@ def run(chk):
         for cls, info in ((SHA256Hasher, SHA256CryptInfo), (SHA512Hasher, SHA512CryptInfo)):
             for start in (0, 5, 63):
                 picks2 = []
-                real_choice = _secrets.choice
 
-                def stub(seq, picks2=picks2, start=start):
-                    i = (start + 9 * len(picks2)) % len(seq)
-                    picks2.append((len(seq), i, seq[i]))
-                    return seq[i]
-                _secrets.choice = stub
+                def b2(self, n, picks2=picks2, start=start):
+                    picks2.append((n, (start + 9 * len(picks2)) % n))
+                    return picks2[-1][1]
+
+                def f2(self, picks2=picks2, start=start):
+                    k = (start + 9 * len(picks2)) % 64
+                    picks2.append((64, k))
+                    return (k + 0.5) / 64
+                ob, of = _random.SystemRandom._randbelow, _random.SystemRandom.random
+                _random.SystemRandom._randbelow, _random.SystemRandom.random = b2, f2
                 try:
                     hs = cls(rounds=1000).hash("pw")
                 finally:
-                    _secrets.choice = real_choice
+                    _random.SystemRandom._randbelow, _random.SystemRandom.random = ob, of
                 salt = inspect_sha_crypt(hs, info).salt
                 chk.evaluations += 1
                 chk.count(("libpass-sha-salt", cls.__name__, start))
-                if len(salt) != 16 or [p[0] for p in picks2[:16]] != [64] * 16 or "".join(p[2] for p in picks2[:16]) != salt or set("".join(str(p[2]) for p in picks2)) - set(H64ABC):
-                    chk.violation(f"libpass:{cls.__name__}:salt", f"{cls.__name__}: salt {salt!r} is not 16 uniform picks from the 64-symbol sha-crypt alphabet (alphabet sizes used: {sorted({p[0] for p in picks2})})",
+                # 16 draws, each uniform on 64 values, each value standing for one symbol of the format's alphabet (one-to-one)
+                m1, m2 = {}, {}
+                consistent = len(salt) == 16 and len(picks2) >= 16 and all(m1.setdefault(p[1], c) == c and m2.setdefault(c, p[1]) == p[1] for p, c in zip(picks2[:16], salt))
+                if not consistent or [p[0] for p in picks2[:16]] != [64] * 16 or set(salt) - set(H64ABC):
+                    chk.violation(f"libpass:{cls.__name__}:salt", f"{cls.__name__}: salt {salt!r} is not 16 uniform picks from the 64-symbol sha-crypt alphabet (ranges asked: {sorted({p[0] for p in picks2})})",
                                   {"salt": salt, "picks": [list(map(str, p)) for p in picks2[:20]]})
     except ImportError as ex:
         chk.uncovered.append(f"libpass sha-crypt hashers: {ex}")
@@ -362,7 +404,11 @@ def run(chk):
         import base64 as _b64
         for cls, info in ((PBKDF2SHA256Handler, PBKDF2SHA256CryptInfo), (PBKDF2SHA512Handler, PBKDF2SHA512CryptInfo)):
             for bits in (64, 128, 256, 512):
-                hs = cls(rounds=1, salt_entropy_bits=bits).hash("pw")
+                try:
+                    hs = cls(rounds=1, salt_entropy_bits=bits).hash("pw")
+                except Exception as ex:
+                    chk.violation(f"libpass:{cls.__name__}:salt:{type(ex).__name__}", f"{cls.__name__}(salt_entropy_bits={bits}).hash() raised {type(ex).__name__}: {ex}", {"bits": bits})
+                    continue
                 inf = inspect_pbkdf2_hash(hs, info)
                 raw = inf.salt if isinstance(inf.salt, (bytes, str)) else b""
                 # the salt is stored base64-coded: decode it back to the generated text
@@ -417,9 +463,36 @@ def sticky_salts(chk):
         if pinned in salts or salts[0] == salts[1] or any(o[1] == 0 for o in outs):
             chk.violation(f"sticky-salt:{label}", f"{label}: after a call with the explicit salt {pinned!r}, calls without a salt produced salts {salts} using {[o[1] for o in outs]} random requests",
                           {"path": label, "pinned": repr(pinned), "salts": [repr(x) for x in salts]})
-    for h, pinned, kw in ((H.sha256_crypt, "abcdabcdabcdabcd", dict(rounds=1000)), (H.pbkdf2_sha256, b"0123456789abcdef", dict(rounds=1)), (H.md5_crypt, "abcdefgh", {})):
-        h.using(salt=pinned, **kw).hash("pw")
-        drawn(lambda: h.using(**kw).hash("pw"), lambda s, h=h: h.from_string(s).salt, pinned, f"{h.name}.using(salt=..) then using()")
+    # every salted hasher of the registry
+    from passlib import registry
+    import passlib.utils.handlers as uh
+    for name in sorted(registry.list_crypt_handlers()):
+        try:
+            h = registry.get_crypt_handler(name)
+            w = getattr(h, "wrapped", h)
+            if "salt" not in h.setting_kwds or (hasattr(h, "has_backend") and not h.has_backend()):
+                continue
+            if name == "cisco_type7":
+                pinned = 7
+            elif name in ("bcrypt", "bcrypt_sha256", "ldap_bcrypt", "django_bcrypt", "django_bcrypt_sha256"):
+                pinned = "abcdefghijklmnopqrstuu"
+            else:
+                size = w.default_salt_size or w.min_salt_size or 8
+                pinned = bytes(65 + (i % 26) for i in range(size)) if issubclass(w, uh.HasRawSalt) else "".join(w.default_salt_chars[(i * 7 + 3) % len(w.default_salt_chars)] for i in range(size))
+            kw = {}
+            if "rounds" in h.setting_kwds:
+                kw["rounds"] = 1 if name == "scrypt" else (w.min_rounds if w.rounds_cost == "log2" else max(w.min_rounds, 1))
+            ctx = {k: k for k in ("user", "realm") if k in h.context_kwds}
+
+            def salt_of(s_, h=h, w=w):
+                return w.from_string(h._unwrap_hash(s_) if hasattr(h, "wrapped") else s_).salt
+            first = h.using(salt=pinned, **kw).hash("pw", **ctx)
+            if salt_of(first) != pinned:
+                continue            # (explicit salts are C09's subject)
+        except Exception as ex:
+            chk.uncovered.append(f"sticky salt {name}: {type(ex).__name__}: {ex}"[:120])
+            continue
+        drawn(lambda: h.using(**kw).hash("pw", **ctx), salt_of, pinned, f"{name}.using(salt=..) then using()")
     try:
         from django.conf import settings
         if not settings.configured:
